@@ -6,6 +6,19 @@ import json, os, subprocess, sys, time
 V = os.path.dirname(os.path.dirname(os.path.abspath(__file__)))
 REPO = "/repo"
 
+def keep_evidence(props):
+    """Evidence files are rewritten by every run; a run against a seeded change must not replace the evidence of
+    the clean tree.  Returns a restore function."""
+    saved = {}
+    for p in props:
+        f = os.path.join(V, "evidence", p + ".json")
+        saved[f] = open(f).read() if os.path.exists(f) else None
+    def restore():
+        for f, txt in saved.items():
+            if txt is not None:
+                open(f, "w").write(txt)
+    return restore
+
 def sh(cmd, **kw):
     return subprocess.run(cmd, shell=True, stdout=subprocess.PIPE, stderr=subprocess.STDOUT, text=True, **kw)
 
@@ -23,6 +36,7 @@ def scratch_main(dirs):
             print("patch does not apply:", a.stdout); rc_all = 2; continue
         results = {}
         env = dict(os.environ, VERIF_REPO=wt, VERIF_BUILD=bd)
+        restore = keep_evidence(props)
         try:
             for p in props:
                 t0 = time.time()
@@ -32,6 +46,7 @@ def scratch_main(dirs):
                               "wall_s": round(time.time() - t0, 1), "on": "scratch worktree of /repo HEAD with the patch applied"}
                 print(os.path.basename(d), p, "exit", r.returncode, vio[:1])
         finally:
+            restore()
             sh("git -C %s worktree remove --force %s" % (REPO, wt)); sh("rm -rf %s %s" % (wt, bd))
         json.dump({"checked_at": time.strftime("%Y-%m-%dT%H:%M:%S"), "results": results},
                   open(os.path.join(d, "result.json"), "w"), indent=1)
@@ -55,6 +70,7 @@ def main():
         if a.returncode != 0:
             print("patch does not apply:", a.stdout); rc_all = 2; continue
         results = {}
+        restore = keep_evidence(props)
         try:
             for p in props:
                 t0 = time.time()
@@ -64,6 +80,7 @@ def main():
                               "wall_s": round(time.time() - t0, 1)}
                 print(os.path.basename(d), p, "exit", r.returncode, vio[:1])
         finally:
+            restore()
             sh("git -C %s apply -R %s" % (REPO, patch))
             sh("git -C %s checkout -- ." % REPO)
             left = sh("git -C %s status --porcelain" % REPO).stdout.strip()
